@@ -4,9 +4,11 @@
    Trace level: the disconnect clauses (701/706) and the connect clauses (702/703: a connect changes nothing beyond the
    Logon an initiator sends; a Logon that resets is number 1 with the counters at 2/1) never fail on any model trace.
    Clause 708 (every transmitted Logon with ResetSeqNumFlag=Y is number 1) holds on every trace (WireProofs.v).
-   The received-reset-Logon and Logout clauses (704/705/707/709/710) are evaluated on every trace by c07_check (`_partial`). *)
+   The received-reset-Logon and Logout clauses (704/705/709/710) are evaluated on every trace by c07_check (`_partial`).
+   Clause 707 (reply to an accepted reset Logon): exact step and trace theorems below; the clause AS WRITTEN in c07_check
+   (next sender number = 2) is refuted on the model when the peer's reset Logon is itself numbered above 1. *)
 From Coq Require Import ZArith List Bool.
-From QF Require Import Base.Bytes Session.Types Session.Model Session.Spec Session.LocalProofs Session.C01Proofs Session.FrameProofs Session.TraceProofs Session.ConnectProofs Session.WireProofs.
+From QF Require Import Base.Bytes Session.Types Session.Model Session.Spec Session.LocalProofs Session.C01Proofs Session.FrameProofs Session.TraceProofs Session.ConnectProofs Session.WireProofs Session.LogonProofs.
 Import ListNotations.
 Open Scope Z_scope.
 
@@ -72,3 +74,61 @@ Proof. exact initiator_connect_general. Qed.
 Theorem c07_reset_logon_is_number_one_on_every_trace : forall c es,
   free_of [708] (c07_check c (combine es (map obs_of (run_trace es (init_sess c))))) = true.
 Proof. exact c07_reset_logon_is_number_one. Qed.
+
+(* ---- clause 707: the acceptor's reply to an accepted Logon carrying ResetSeqNumFlag=Y ---- *)
+(* STEP, exact: from any state in the logon state whose outbound channel is open (every reachable one: `Boundary`) with
+   nothing buffered inbound, for every message m with ResetSeqNumFlag=Y: if processing m calls OnLogon, then exactly one
+   message is written, it is a Logon with 141=Y and MsgSeqNum 1 (the store is reset before the number is taken), and
+   - if m's own MsgSeqNum n is at most 1: next sender number 2, expected number 2, nothing queued, state inSession;
+   - if n > 1: doTargetTooHigh (logon state: not yet logged on) numbers a ResendRequest 2 and QUEUES it, so the next
+     sender number is 3, the expected number stays 1 and the state is resend. *)
+Theorem c07_reset_logon_echo_step : forall s m,
+  s_st s = SLogon -> s_out_open s = true -> s_in_buf s = [] -> initiator s = false -> reset_flag m = true ->
+  let s' := step s (EIncoming m) in
+  In CbOnLogon (s_cbs s') ->
+  exists lg n, rev (s_wire s') = [lg] /\ logon_resets lg = true /\ o_seq lg = 1 /\ mi_seq m = FVal n
+    /\ (if 1 <? n
+        then s_snd s' = 3 /\ s_tgt s' = 1 /\ (exists q, s_to_send s' = [q] /\ o_type q = T_RESENDREQ /\ o_seq q = 2)
+             /\ (exists a b d, s_st s' = SResend a b d)
+        else s_snd s' = 2 /\ s_tgt s' = 2 /\ s_to_send s' = [] /\ s_st s' = SInSession).
+Proof. exact step_logon_reset_echo. Qed.
+
+(* TRACE LEVEL, the clause as written in c07_check — FALSE of the model: a peer Logon with 141=Y numbered 5 is accepted,
+   answered by Logon(1, 141=Y), and a ResendRequest takes number 2: the next sender number is 3, not 2. *)
+Theorem c07_reset_logon_echo_refuted :
+  exists c es, free_of [707] (c07_check c (combine es (map obs_of (run_trace es (init_sess c))))) = false.
+Proof. exact c07_reset_echo_refuted. Qed.
+
+(* TRACE LEVEL, partial (missing: traces containing a directly processed reset Logon numbered above 1, for which the clause
+   is false, see above): for every configuration and every event list without such an event, clause 707 never fails. *)
+Theorem c07_reset_logon_echo_holds_on_every_trace_partial : forall c es,
+  existsb reset_logon_ahead es = false ->
+  free_of [707] (c07_check c (combine es (map obs_of (run_trace es (init_sess c))))) = true.
+Proof. exact c07_reset_echo_never_fails_partial. Qed.
+
+(* TRACE LEVEL, exact form, all traces: with the same guard as clause 707 (echo_guard), the first Logon written in the event
+   carries the flag and number 1, and the next sender number is 2, or 3 when the peer's Logon was numbered above 1. *)
+Theorem c07_reset_logon_echo_exact_on_every_trace : forall c es,
+  echo_exact_scan c (init_obs c) (combine es (map obs_of (run_trace es (init_sess c)))) = true.
+Proof. exact c07_reset_echo_exact. Qed.
+
+(* non-vacuity: the hypothesis of the partial theorem holds and the guard fires (reset Logon numbered 1 accepted, reply
+   Logon(1, 141=Y), next sender number 2) ... *)
+Example c07_reset_echo_example :
+  let es := [EConnect; EIncoming (lgp_logon 1 7)] in
+  existsb reset_logon_ahead es = false /\
+  map (fun o => (ob_st o, ob_hb o, ob_snd o, ob_tgt o, existsb (fun x => match x with CbOnLogon => true | _ => false end) (ob_cbs o),
+                 map (fun w => (o_type w, o_seq w, field_of 141 (o_body w))) (ob_wire o)))
+      (map obs_of (run_trace es (init_sess lgp_cfg)))
+  = [(ShLogon, 30, 1, 1, false, []); (ShInSession, 7, 2, 2, true, [(T_LOGON, 1, Some lgp_Y)])].
+Proof. exact lgp_accept_example. Qed.
+
+(* ... and the failing input of the clause as written: reset Logon numbered 5 *)
+Example c07_reset_echo_ahead_example :
+  let es := [EConnect; EIncoming (lgp_logon 5 7)] in
+  c07_check lgp_cfg (lgp_trace es) = [(1%nat, 707)] /\
+  map (fun o => (sh_is_resend (ob_st o), ob_hb o, ob_snd o, ob_tgt o, ob_tosend o,
+                 map (fun w => (o_type w, o_seq w, field_of 141 (o_body w))) (ob_wire o)))
+      (map obs_of (run_trace es (init_sess lgp_cfg)))
+  = [(false, 30, 1, 1, 0, []); (true, 7, 3, 1, 1, [(T_LOGON, 1, Some lgp_Y)])].
+Proof. exact lgp_ahead_example. Qed.
